@@ -117,7 +117,7 @@ def _relayout(draw, line):
 @st.composite
 def _unit(draw):
     g = _G(draw)
-    pick = draw(st.integers(0, 71))
+    pick = draw(st.integers(0, 72))
     sup = True
     pre = ""
     label = ""
@@ -492,6 +492,16 @@ def _unit(draw):
             lit = draw(st.sampled_from([str(m), "True", f"{m}.5", "'s'"])) if o != "Where" else "True"
             body = f"def f1({a}): return {lit}\nq = ds.{o}(f1)"
             label = "one-line-def-returning-a-literal"
+    elif pick == 72:
+        # class-private names: inside a class python compiles `x.__p` as `x._Class__p` (the class name may contain `__` itself)
+        o = g.op()
+        a = draw(st.sampled_from(ARGS))
+        g.n += 1
+        m = 1000 + g.n * 17
+        c = " > 0" if o == "Where" else ""
+        cls = draw(st.sampled_from(["K", "My__K", "_K", "K__", "__K"]))
+        body = f"class {cls}:\n    def m(self, d):\n        return d.{o}(lambda {a}: {a} * 3 + {m} + ({a}.__p if {a} == 'never' else 0){c})\nq = {cls}().m(ds)"
+        label = "class-private-attribute-name"
     elif pick in (70, 71):
         # callables whose source is not what they do: a decorated function (the wrapper changes the result) and a bound method,
         # passed by name - refusing is fine, recording the underlying function's text is not
